@@ -41,9 +41,11 @@ type readResult struct {
 	err    error
 	tag    uint32 // writer<<16 | seq
 	ok     bool   // payload intact
+	short  bool   // truncated read (io.ErrShortBuffer)
 }
 
 type scenario struct {
+	ShortBuf []bool  // per reader: reads into a 6-byte slice (shorter than most packets)
 	Readers  []int   // reads per reader
 	Writers  [][]int // payload sizes per writer
 	Close    bool
@@ -51,7 +53,7 @@ type scenario struct {
 }
 
 func (sc scenario) String() string {
-	return fmt.Sprintf("readers=%v writers=%v close=%v deadline=%d", sc.Readers, sc.Writers, sc.Close, sc.Deadline)
+	return fmt.Sprintf("readers=%v short=%v writers=%v close=%v deadline=%d", sc.Readers, sc.ShortBuf, sc.Writers, sc.Close, sc.Deadline)
 }
 
 func genScenario(t *rapid.T) scenario {
@@ -59,6 +61,7 @@ func genScenario(t *rapid.T) scenario {
 	nr := rapid.IntRange(1, 3).Draw(t, "readers")
 	for i := 0; i < nr; i++ {
 		sc.Readers = append(sc.Readers, rapid.IntRange(1, 2).Draw(t, "reads"))
+		sc.ShortBuf = append(sc.ShortBuf, rapid.IntRange(0, 3).Draw(t, "short") == 0)
 	}
 	nw := rapid.IntRange(1, 2).Draw(t, "writers")
 	for i := 0; i < nw; i++ {
@@ -87,6 +90,7 @@ func payload(w, seq, size int) []byte {
 
 type outcome struct {
 	mu        sync.Mutex
+	sizes     map[uint32]int // planned size of every packet (known before it is written)
 	clock     int
 	reads     []readResult
 	writesOK  map[uint32]int // tag -> size
@@ -160,7 +164,12 @@ func runScenario(sc scenario, ch sched.Chooser, c *ev.Case, logf func(string, ..
 	s := sched.New()
 	install(s)
 	b := packetio.NewBuffer()
-	out := &outcome{writesOK: map[uint32]int{}}
+	out := &outcome{writesOK: map[uint32]int{}, sizes: map[uint32]int{}}
+	for w, sizes := range sc.Writers {
+		for seq, sz := range sizes {
+			out.sizes[uint32(w)<<16|uint32(seq)] = sz
+		}
+	}
 	released := false
 	release := func() {
 		if !released {
@@ -188,6 +197,9 @@ func runScenario(sc scenario, ch sched.Chooser, c *ev.Case, logf func(string, ..
 		r, reads := r, reads
 		s.Go(fmt.Sprintf("reader%d", r), func() {
 			buf := make([]byte, 2048)
+			if r < len(sc.ShortBuf) && sc.ShortBuf[r] {
+				buf = make([]byte, 6) // a short read consumes the whole packet and returns its leading bytes
+			}
 			for i := 0; i < reads; i++ {
 				out.mu.Lock()
 				out.clock++
@@ -199,11 +211,20 @@ func runScenario(sc scenario, ch sched.Chooser, c *ev.Case, logf func(string, ..
 				end := out.clock
 				out.mu.Unlock()
 				res := readResult{reader: r, n: n, err: err, startSeq: start, endSeq: end}
+				if errors.Is(err, io.ErrShortBuffer) && n == len(buf) {
+					err = nil // a truncated read is a successful, consuming read of the packet's prefix
+					res.err = nil
+					res.short = true
+				}
 				if err == nil && n >= 4 {
 					res.tag = binary.BigEndian.Uint32(buf)
 					w, seq := int(res.tag>>16), int(res.tag&0xffff)
-					want := payload(w, seq, n)
-					res.ok = string(want) == string(buf[:n])
+					full := 0
+					out.mu.Lock()
+					full = out.sizes[res.tag]
+					out.mu.Unlock()
+					want := payload(w, seq, max(full, n))
+					res.ok = string(want[:n]) == string(buf[:n])
 				}
 				out.mu.Lock()
 				out.reads = append(out.reads, res)
@@ -303,7 +324,10 @@ func runScenario(sc scenario, ch sched.Chooser, c *ev.Case, logf func(string, ..
 			out.mu.Lock()
 			sz, written := out.writesOK[r.tag]
 			out.mu.Unlock()
-			if !written || sz != r.n || !r.ok {
+			if c != nil && r.short {
+				c.Label("short-read")
+			}
+			if !written || (sz != r.n && !(r.short && r.n < sz)) || !r.ok {
 				fail("C08/C06: reader %d got a %d-byte packet (tag %#x) that matches no written packet\n%s", r.reader, r.n, r.tag, s.Describe())
 				return
 			}
